@@ -629,6 +629,24 @@ let () =
              | "TICK" -> Monitor.on_tick impl
              | "SYN" -> Monitor.on_syn (next_int mc) impl
              | "CATCHUP" -> let i = next_int mc in let m = next_id mc in Monitor.on_catchup ~member:m i impl
+             | "SELECT" ->
+                 (* C17 on the implementation's own answer: dead peers outnumber live ones => a dead
+                    peer is contacted; no live peer and some seed => a seed is contacted *)
+                 let count tag = expect mc tag; let k = next_int mc in ignore (repeat k (fun () -> next mc)); k in
+                 let _np = count "P" in
+                 let nl = count "L" in
+                 let nd = count "D" in
+                 let ns = count "S" in
+                 let ic = cursor_of_line impl in
+                 (try
+                    expect ic "valid"; ignore (next ic);
+                    expect ic "dead"; let d = next_int ic in
+                    expect ic "seed"; let sd = next_int ic in
+                    Monitor.check "C17" (not (nl < nd) || d = 1)
+                      (Printf.sprintf "%d dead peers outnumber %d live peers but no dead peer was contacted" nd nl);
+                    Monitor.check "C17" (not (nl = 0 && ns > 0) || sd = 1)
+                      "no live peer and a configured seed, but no seed was contacted"
+                  with _ -> ())
              | "ROUND" -> Monitor.on_round (next_int mc)
              | "ROUNDSEND" -> Monitor.on_rounds_end (next_int mc)
              | "HS" -> let a = next_int mc in let b = next_int mc in Monitor.on_hs_begin a b
